@@ -158,6 +158,25 @@ CLAIMED = {
          "explored schedules only; plain node->next initialisation reported by the scenario.",
     technique="Lean 4 refinement/invariant proofs on TSO transition systems (ghost abstract stack, linearisation events) + event-level trace refinement of the real sources",
     design_ref="§4 C11", engine="stacks"),
+ "C12": dict(
+    text="Lean 4 theorem C12_full_holds on an executable step-level model of include/urcu/static/rculfqueue.h (one step per load / "
+         "cmpxchg of enqueue, enqueue_dummy, dequeue incl. the tail help, destroy; any number of threads, every interleaving, threads "
+         "suspended anywhere, nodes and dummies recycled after an abstract GpSpec grace period), for the text in /repo today "
+         "(Current c): lfq_refines_fifo / lfq_trace_refines (every step of every thread in every reachable state is a step of the "
+         "sequential FIFO; linearisation points: link CAS, head CAS on a non-dummy, the load head->next == NULL on a dummy; "
+         "linearisation_inside_call), each_node_dequeued_once (enqd = deqd ++ abs, no duplicates), dequeue_null_only_if_empty_at_some_"
+         "instant, dummy_never_returned, dummy_freed_after_gp, no_aba, reclaim_blocked_while_held, tail_lags_at_most_one, "
+         "destroy_iff_empty, private_until_published; the two pre-fix texts are model switches with Lean-checked defect witnesses "
+         "(uaf_reachable_unfixed, destroy_eperm_on_empty_reachable_unfixed). Tie: the real src/rculfqueue.c + header and the real "
+         "src/urcu.c (memb with/without sys_membarrier, mb; call_rcu helper as a cooperative thread) under the shim; random/PCT/one-"
+         "preemption sweep/directed schedules replayed by Driver/Lfq.lean on the model; independent oracles (Henzinger-Sezgin-Vafeiadis "
+         "FIFO patterns, dummy, count, destroy, gp, page quarantine of freed nodes/dummies, DEADLOCK/BUDGET).",
+    note="Trusted: Lean kernel; SC = x86-TSO for this structure is argued (every shared mutation is a locked cmpxchg; "
+         "private_until_published), the TSO machine is not instantiated; GpSpec composition with the real grace period by interface "
+         "(bp/qsbr not linked); L1 ⊑ L2 on explored schedules only; API contract (operations inside read-side sections, re-enqueue/free "
+         "only after a grace period, destroy at quiescence, malloc succeeds).",
+    technique="Lean 4 inductive invariant (26 clauses) + forward-simulation refinement to a sequential FIFO on an executable step-level model; event-level trace refinement of the real source with independent oracles",
+    design_ref="§4 C12, §10.4", engine="lfq"),
  "C14": dict(
     text="Lean 4 theorems poll_sound / poll_monotone / poll_no_stuck / poll_progress (inductive invariant over all operation "
          "interleavings, any number of readers and handles) on an executable model of urcu-poll-impl.h; the model is tied to "
